@@ -10,3 +10,6 @@ func VerifDecodeNatural(b []byte) (uint32, int)     { return buffer(b).decodeNat
 func VerifDecodeReal(b []byte) (float32, int)       { return buffer(b).decodeReal() }
 func VerifDecodeCoordinate(b []byte) (float32, int) { return buffer(b).decodeCoordinate() }
 func VerifDecodeZeroToOne(b []byte) (float32, int)  { return buffer(b).decodeZeroToOne() }
+
+// VerifSharedHash hashes this package's package-level variables.
+func VerifSharedHash() string { return fmtSprint(midDescriptions) }
